@@ -73,7 +73,19 @@ theorem leafRange_invOk (k : LeafKind) (size : Option Int) : InvOk (leafRange k 
 
 theorem boundFn_inv {a : AVal} {up : Bool} {c : Int}
     (h : (if up then a.max else a.min) = .fin c) : boundFn up a = constRange c := by
-  simp [boundFn, h, constRange]
+  simp [boundFn, h, constRange, ExtInt.isInf]
+
+/-- `$upper_bound`/`$lower_bound` always satisfy the invariant: a finite bound is a constant,
+    an infinite one gives the unbounded annotation -/
+theorem boundFn_invS (up : Bool) (a : AVal) : InvS (boundFn up a) := by
+  cases hv : (if up then a.max else a.min) with
+  | fin c => rw [boundFn_inv hv]; exact Or.inl ⟨c, rfl⟩
+  | posInf =>
+    have : boundFn up a = unboundedLeaf := by simp [boundFn, hv, ExtInt.isInf, unboundedLeaf]
+    rw [this]; exact InvS_of_InvOk (by decide)
+  | negInf =>
+    have : boundFn up a = unboundedLeaf := by simp [boundFn, hv, ExtInt.isInf, unboundedLeaf]
+    rw [this]; exact InvS_of_InvOk (by decide)
 
 /-! ### whole expressions -/
 
@@ -167,123 +179,104 @@ theorem absMax_inv {tys : List AType} {ty : AType} (hall : ∀ t ∈ tys, InvT t
     obtain ⟨r, h1, h2⟩ := maxFn_inv hne (atypeInts_inv hall hl)
     rw [h1] at hz; cases hz; exact h2
 
-theorem absBound_inv {up : Bool} {a ty : AType}
-    (hfin : match a with | .int x => (if up then x.max else x.min).isInf = false | _ => True)
-    (h : absBound up a = some ty) : InvT ty := by
+theorem absBound_inv {up : Bool} {a ty : AType} (h : absBound up a = some ty) : InvT ty := by
   unfold absBound at h
   split at h
-  · rename_i x
-    cases h
-    simp only at hfin
-    cases hv : (if up = true then x.max else x.min) with
-    | fin c =>
-      simp only [InvT]
-      rw [boundFn_inv hv]; exact Or.inl ⟨c, rfl⟩
-    | posInf => rw [hv] at hfin; simp [ExtInt.isInf] at hfin
-    | negInf => rw [hv] at hfin; simp [ExtInt.isInf] at hfin
+  · cases h; exact boundFn_invS _ _
   · cases h
 
 mutual
-theorem inv_aux : (e : Expr) → GivenOk e = true → FiniteBounds e = true →
+theorem inv_aux : (e : Expr) → GivenOk e = true →
     ∀ ty, abs e = some ty → InvT ty
-  | .const c, _, _ => by
+  | .const c, _ => by
     intro ty h; simp only [abs, Option.some.injEq] at h; subst h; exact Or.inl ⟨c, rfl⟩
-  | .bconst _, _, _ => by
+  | .bconst _, _ => by
     intro ty h; simp only [abs, Option.some.injEq] at h; subst h; trivial
-  | .econst _, _, _ => by
+  | .econst _, _ => by
     intro ty h; simp only [abs, Option.some.injEq] at h; subst h; trivial
-  | .ileaf _ k size, _, _ => by
+  | .ileaf _ k size, _ => by
     intro ty h; simp only [abs, Option.some.injEq] at h; subst h
     exact InvS_of_InvOk (leafRange_invOk k size)
-  | .ssize _, _, _ => by
+  | .ssize _, _ => by
     intro ty h; simp only [abs, Option.some.injEq] at h; subst h
     exact InvS_of_InvOk (by decide)
-  | .given _ a, hg, _ => by
+  | .given _ a, hg => by
     intro ty h; simp only [abs, Option.some.injEq] at h; subst h
     simp only [GivenOk] at hg
     exact InvS_of_InvOk hg
-  | .bleaf _, _, _ => by
+  | .bleaf _, _ => by
     intro ty h; simp only [abs, Option.some.injEq] at h; subst h; trivial
-  | .eleaf _, _, _ => by
+  | .eleaf _, _ => by
     intro ty h; simp only [abs, Option.some.injEq] at h; subst h; trivial
-  | .bin op l r, hg, hf => by
+  | .bin op l r, hg => by
     simp only [GivenOk, Bool.and_eq_true] at hg
-    simp only [FiniteBounds, Bool.and_eq_true] at hf
-    have ih1 := inv_aux l hg.1 hf.1
-    have ih2 := inv_aux r hg.2 hf.2
+    have ih1 := inv_aux l hg.1
+    have ih2 := inv_aux r hg.2
     intro ty h
     simp only [abs] at h
     split at h
     · rename_i a b ha hb
       exact absBin_inv (ih1 a ha) (ih2 b hb) h
     · cases h
-  | .choice c t f, hg, hf => by
+  | .choice c t f, hg => by
     simp only [GivenOk, Bool.and_eq_true] at hg
-    simp only [FiniteBounds, Bool.and_eq_true] at hf
-    have ih2 := inv_aux t hg.1.2 hf.1.2
-    have ih3 := inv_aux f hg.2 hf.2
+    have ih2 := inv_aux t hg.1.2
+    have ih3 := inv_aux f hg.2
     intro ty h
     simp only [abs] at h
     split at h
     · rename_i a b d ha hb hd
       exact absChoice_inv (ih2 b hb) (ih3 d hd) h
     · cases h
-  | .max args, hg, hf => by
+  | .max args, hg => by
     simp only [GivenOk] at hg
-    simp only [FiniteBounds] at hf
-    have ih := invList_aux args hg hf
+    have ih := invList_aux args hg
     intro ty h
     simp only [abs] at h
     split at h
     · rename_i l hl
       exact absMax_inv (ih l hl) h
     · cases h
-  | .upper e, hg, hf => by
+  | .upper e, hg => by
     simp only [GivenOk] at hg
-    simp only [FiniteBounds, Bool.and_eq_true] at hf
     intro ty h
     simp only [abs] at h
     split at h
     · rename_i a ha
-      refine absBound_inv (up := true) ?_ h
-      have h2 := hf.2
-      rw [ha] at h2
-      cases a <;> simp_all
+      exact absBound_inv h
     · cases h
-  | .lower e, hg, hf => by
+  | .lower e, hg => by
     simp only [GivenOk] at hg
-    simp only [FiniteBounds, Bool.and_eq_true] at hf
     intro ty h
     simp only [abs] at h
     split at h
     · rename_i a ha
-      refine absBound_inv (up := false) ?_ h
-      have h2 := hf.2
-      rw [ha] at h2
-      cases a <;> simp_all
+      exact absBound_inv h
     · cases h
-  | .cref e, hg, hf => by
+  | .cref e, hg => by
     simp only [GivenOk] at hg
-    simp only [FiniteBounds] at hf
     intro ty h
     simp only [abs] at h
-    exact inv_aux e hg hf ty h
-  | .vref e, hg, hf => by
+    exact inv_aux e hg ty h
+  | .vref e, hg => by
     simp only [GivenOk] at hg
-    simp only [FiniteBounds] at hf
     intro ty h
     simp only [abs] at h
-    exact inv_aux e hg hf ty h
-theorem invList_aux : (es : List Expr) → GivenOkList es = true → FiniteBoundsList es = true →
+    exact inv_aux e hg ty h
+  | .present a c, hg => by
+    simp only [GivenOk] at hg
+    intro ty h
+    simp only [abs] at h
+    exact inv_aux c hg ty h
+theorem invList_aux : (es : List Expr) → GivenOkList es = true →
     ∀ tys, absList es = some tys → ∀ t ∈ tys, InvT t
-  | [], _, _ => by
+  | [], _ => by
     intro tys h; simp only [absList, Option.some.injEq] at h; subst h
     intro t ht; cases ht
-  | e :: es, hg, hf => by
+  | e :: es, hg => by
     simp only [GivenOkList, Bool.and_eq_true] at hg
-    simp only [FiniteBoundsList, Bool.and_eq_true] at hf
-    have ih1 := inv_aux e hg.1 hf.1
-    have ih2 := invList_aux es hg.2 hf.2
+    have ih1 := inv_aux e hg.1
+    have ih2 := invList_aux es hg.2
     intro tys h
     simp only [absList] at h
     split at h
